@@ -21,6 +21,17 @@ CHECKS["C03"] = dict(
    note="Trusts the Python decoders as the meaning of the formats; serde_* parsers only classify decoder limitations; TOML corner cases the 0.5 serializer cannot express may be errors.",
    ref="DESIGN.md section 5 C03")
 
+CHECKS["C04"] = dict(
+   technique="property-based testing + corpus enumeration with a crash/termination validity predicate (catch_unwind, supervised worker, deterministic work counter)",
+   text="Every shipped .ucg file and fuzz-corpus file, plus generated token soups, token mutations of those files, edge-arithmetic programs and nesting up to 64 levels go through every stage (tokenize, parse, type check, translate, format, evaluate strict/non-strict, 8 converters) in a supervised worker process; a panic, an abort of the worker or a stage exceeding its polynomial work bound (ucg_verif hook) is a violation; 1 in 40 inputs also runs through the real binary (build, fmt, test: exit 0/1 with a message).",
+   note="Termination is decided by the work counter of the ucg_verif hook (bounds stated in the evidence); the wall clock is only a watchdog and yields exit 2, never a violation. Ranges longer than 10^6, nesting beyond 64 and module self-recursion are excluded as the property states.",
+   ref="DESIGN.md section 5 C04")
+CHECKS["C12"] = dict(
+   technique="property-based testing (generated document tuples) with an independent XML parser (expat) as round-trip oracle",
+   text="Generated document tuples (element trees, text nodes, attributes, namespaces, declarations, NULLs, malformed kinds) are converted by the xml converter; expat parses the bytes and the parsed tree (names, nesting, attributes, namespace declarations, text) must equal the described document; malformed documents and characters XML cannot hold must be errors; 1 in 8 also through a `convert xml` expression.",
+   note="Trusts expat as the meaning of well-formedness; tolerates only what XML makes unobservable (line-end and attribute-value normalisation, indentation whitespace between tags, repeated identical namespace declarations).",
+   ref="DESIGN.md section 5 C12")
+
 PENDING = {}
 
 def main():
@@ -66,6 +77,6 @@ def main():
     json.dump(m, open(os.path.join(here, "MANIFEST.json"), "w"), indent=1)
     print("wrote MANIFEST.json with", len(checks), "checks;", len(na), "not claimed")
 
-HOOK_COMMITS = []
+HOOK_COMMITS = ["dcce9ec"]
 if __name__ == "__main__":
     main()
